@@ -7,7 +7,7 @@ using namespace vh;
 namespace {
 
 const int CODECS[] = { 0 /*hex*/, 1, 3, 5, 7 };
-const char *IGN[] = { nullptr, " \n", ":", "= \t" };
+const char *IGN[] = { nullptr, " \n", ":", "= \t", "\xa0\xff\x80", "\n\xc2\xa0" };     // the ignore set is a set of bytes: 8-bit members (Latin-1 / UTF-8 separators) included
 const char *codec_name(int c) { switch (c) { case 0: return "hex"; case 1: return "b64"; case 3: return "b64-nopad"; case 5: return "b64url"; default: return "b64url-nopad"; } }
 
 struct DecCase {
@@ -56,6 +56,12 @@ bool run_enc(const EncCase &c, std::string &msg) {
     else {
         if (sodium_base64_encoded_len(c.bin.size(), c.codec) != need) { msg = "sodium_base64_encoded_len != strlen+1"; return false; }
         if (sodium_base64_ENCODED_LEN(c.bin.size(), c.codec) != need) { msg = "sodium_base64_ENCODED_LEN macro != strlen+1"; return false; }
+        {   // the macro is documented for use in array sizes: its arguments are expressions, not only identifiers
+            size_t n = c.bin.size(), h = n / 2, one = 1; int v = c.codec, mask = 2 & c.codec, base = c.codec & ~2;      // bit 1 of the variant = "no padding"
+            if (sodium_base64_ENCODED_LEN(h + (n - h), v) != need || sodium_base64_ENCODED_LEN(n + one - 1, v) != need || sodium_base64_ENCODED_LEN(n << 0, v) != need ||
+                sodium_base64_ENCODED_LEN(n ? n : 0, v) != need || sodium_base64_ENCODED_LEN(n | 0, base | mask) != need || sodium_base64_ENCODED_LEN(n, mask ? v : base) != need ||
+                sodium_base64_ENCODED_LEN(n & ~(size_t) 0, base + mask) != need) { msg = "sodium_base64_ENCODED_LEN macro gives a different length when its arguments are written as compound expressions (missing parentheses)"; return false; }
+        }
         r = sodium_bin2base64((char *) out.p, cap, in.p, c.bin.size(), c.codec);
     }
     if (r != (char *) out.p) { msg = "encoder did not return the output pointer"; return false; }
@@ -72,9 +78,11 @@ bool run_enc(const EncCase &c, std::string &msg) {
 
 void dec_all_modes(Ctx &ctx, int codec, const std::string &text, const char *mut, uint64_t extra, std::vector<size_t> caps = {}) {
     if (caps.empty()) caps = { 64 };
+    bool high = false; for (unsigned char ch : text) if (ch >= 0x80) high = true;
     for (size_t cap : caps)
-        for (int ign = 0; ign < 3; ign++)
+        for (int ign = 0; ign < (high ? 6 : 3); ign++)
             for (int he = 0; he < 2; he++) {
+                if (ign == 3) continue;
                 DecCase c{ codec, text, cap, ign, he != 0, true, mut };
                 bool has_alpha = false;
                 for (unsigned char ch : text) if (codec == 0 ? ref::hexval(ch) >= 0 : ref::b64val(ch, codec) >= 0) has_alpha = true;
@@ -166,6 +174,7 @@ void explore_mutations(Ctx &ctx) {
                     // ignore characters at every position (including inside a quantum / pair and inside the padding)
                     std::string ig = enc; ig.insert(pos, pos % 2 ? " " : "\n"); dec_all_modes(ctx, codec, ig, "ignore-char", 5, c2);
                     std::string ig2 = enc; ig2.insert(pos, ":"); dec_all_modes(ctx, codec, ig2, "ignore-colon", 6, c2);
+                    std::string ig3 = enc; ig3.insert(pos, pos % 3 == 0 ? "\xa0" : pos % 3 == 1 ? "\xff" : "\xc2\xa0"); dec_all_modes(ctx, codec, ig3, "ignore-8bit", 30, c2);
                 }
             }
             // padding added / removed / duplicated; trailing garbage; trailing ignore chars
